@@ -55,6 +55,7 @@ static void ev_dst(dec_t *x){
   if(x->inited){ vorbis_dsp_state *v=&x->vd; ev_i("dlW",v->lW); ev_i("dW",v->W); ev_i("dcw",v->centerW); ev_i("dcur",v->pcm_current); ev_i("dret",v->pcm_returned); ev_i("dgp",v->granulepos);
     ev_i("dseq",v->sequence); ev_i("dsc",((private_state*)v->backend_state)->sample_count); ev_i("deof",v->eofflag); ev_i("avail",vorbis_synthesis_pcmout(v,NULL)); }
   ev_i("hsp",x->s_vi==1?vorbis_synthesis_halfrate_p(&x->vi):0);
+  if(x->s_vi==1&&x->vi.codec_setup){ ev_i("abs0",vorbis_info_blocksize(&x->vi,0)); ev_i("abs1",vorbis_info_blocksize(&x->vi,1)); }   /* block sizes actually in force (a damaged header may have changed them) */
 }
 
 static void cmd(char **tok,int nt){
